@@ -1,3 +1,356 @@
-import GambitV.Model.Indexing
+import GambitV.Lemmas.Indexing
+
+/-!
+# C20 — advanced indexing selects what a plain list would select, on both storage layouts
+
+The model (`Model/Indexing.lean`) follows `AdvancedIndexingMixin.__getitem__`: classification of the
+index expression, `_check_index` (wrap a negative index once, then bounds-check), `slice.indices`,
+`numpy.arange`, `numpy.flatnonzero`, and the two storage representations (list-backed, and
+concatenated `values` + cumulative `bounds` with the contiguous-slice fast path).
+
+`getItemList` is characterised first, against plain list operations (`List.getD`, `zip`/`filter`,
+arithmetic progressions); then the concatenated representation is shown to denote the list it
+was built from (`ofList_*`) and every index form on it is shown to select the same elements
+(`concat_refines_list`).  Helper lemmas live in `Lemmas/Indexing.lean`.  Core Lean only.
+-/
 namespace GambitV.C20
+open GambitV
+
+/-! ### 1. `_check_index` -/
+
+theorem checkIndex_ok_iff (n : Nat) (i : Int) (j : Nat) :
+    checkIndex n i = .ok j ↔
+      (0 ≤ i ∧ i < n ∧ (j : Int) = i) ∨ (i < 0 ∧ 0 ≤ i + n ∧ (j : Int) = i + n) :=
+  checkIndex_ok_iff' n i j
+
+theorem checkIndex_error (n : Nat) (i : Int) (e : IdxErr) :
+    checkIndex n i = .error e → e = .indexError ∧ (i ≥ n ∨ i < -(n : Int)) :=
+  checkIndex_error' n i e
+
+theorem checkIndex_lt {n : Nat} {i : Int} {j : Nat} (h : checkIndex n i = .ok j) : j < n := by
+  have := (checkIndex_ok_iff n i j).1 h
+  omega
+
+/-! ### 2. `slice.indices` -/
+
+theorem sliceIndices_bounds (n : Nat) (a b c : Option Int) (hc : c ≠ some 0) (s e st : Int)
+    (h : sliceIndices n a b c = (s, e, st)) :
+    st ≠ 0 ∧ (st > 0 → 0 ≤ s ∧ s ≤ n ∧ 0 ≤ e ∧ e ≤ n) ∧
+      (st < 0 → -1 ≤ s ∧ s ≤ (n : Int) - 1 ∧ -1 ≤ e ∧ e ≤ (n : Int) - 1) := by
+  have := sliceIndices_bounds' n a b c hc
+  rw [h] at this
+  exact this
+
+/-! ### 3. `numpy.arange` -/
+
+/-- `arange s e st` is exactly the arithmetic progression from `s` with step `st`, clipped at `e`. -/
+theorem arange_mem (s e st : Int) (hst : st ≠ 0) (x : Int) :
+    x ∈ arange s e st ↔ ∃ t : Nat, x = s + t * st ∧ (st > 0 → x < e) ∧ (st < 0 → e < x) :=
+  arange_mem' s e st hst x
+
+theorem arange_pairwise (s e st : Int) :
+    (st > 0 → (arange s e st).Pairwise (· < ·)) ∧ (st < 0 → (arange s e st).Pairwise (· > ·)) :=
+  ⟨arange_pairwise_pos s e st, arange_pairwise_neg s e st⟩
+
+/-! ### 4. Slices -/
+
+/-- Every position produced by a slice is a valid position. -/
+theorem slice_in_range (n : Nat) (a b c : Option Int) (hc : c ≠ some 0) (s e st : Int)
+    (h : sliceIndices n a b c = (s, e, st)) : ∀ j ∈ arange s e st, 0 ≤ j ∧ j < n := by
+  obtain ⟨hst, hp, hn⟩ := sliceIndices_bounds n a b c hc s e st h
+  intro j hj
+  obtain ⟨t, rfl, h1, h2⟩ := (arange_mem s e st hst j).1 hj
+  by_cases hpos : st > 0
+  · have := hp hpos
+    have := h1 hpos
+    have : 0 ≤ (t : Int) * st := Int.mul_nonneg (by omega) (by omega)
+    omega
+  · have hneg : st < 0 := by omega
+    have := hn hneg
+    have := h2 hneg
+    have h0 : 0 ≤ (t : Int) * (-st) := Int.mul_nonneg (by omega) (by omega)
+    rw [Int.mul_neg] at h0
+    omega
+
+theorem slice_spec {α : Type} [Inhabited α] (xs : List α) (a b c : Option Int) (hc : c ≠ some 0)
+    (s e st : Int) (h : sliceIndices xs.length a b c = (s, e, st)) :
+    getItemList xs (.slice a b c) =
+        .ok (.many ((arange s e st).map (fun j => xs.getD j.toNat default))) ∧
+      ∀ j ∈ arange s e st, 0 ≤ j ∧ j < xs.length := by
+  have hr := slice_in_range xs.length a b c hc s e st h
+  refine ⟨?_, hr⟩
+  have hn : normIndices xs.length (arange s e st) = .ok ((arange s e st).map (wrapIdx xs.length)) :=
+    normIndices_ok _ _ (fun j hj => by have := hr j hj; omega)
+  simp only [getItemList, if_neg hc, h, hn]
+  show Except.ok _ = Except.ok _
+  rw [List.map_map]
+  congr 2
+  apply List.map_congr_left
+  intro j hj
+  simp only [Function.comp, wrapIdx_nonneg xs.length j (hr j hj).1]
+
+theorem slice_never_raises {α : Type} [Inhabited α] (xs : List α) (a b c : Option Int)
+    (hc : c ≠ some 0) : ∃ ys, getItemList xs (.slice a b c) = .ok (.many ys) := by
+  rcases hp : sliceIndices xs.length a b c with ⟨s, e, st⟩
+  exact ⟨_, (slice_spec xs a b c hc s e st hp).1⟩
+
+/-! ### 5. Integer index -/
+
+theorem int_spec {α : Type} [Inhabited α] (xs : List α) (i : Int) (h1 : -(xs.length : Int) ≤ i)
+    (h2 : i < xs.length) :
+    getItemList xs (.int i) =
+      .ok (.one (xs.getD (if i < 0 then i + xs.length else i).toNat default)) := by
+  simp only [getItemList, checkIndex_in_range xs.length i h1 h2]
+  rfl
+
+theorem int_spec_error {α : Type} [Inhabited α] (xs : List α) (i : Int)
+    (h : i < -(xs.length : Int) ∨ i ≥ xs.length) :
+    getItemList xs (.int i) = .error .indexError := by
+  simp only [getItemList, checkIndex_out_of_range xs.length i h]
+  rfl
+
+/-! ### 6. Integer array / sequence -/
+
+theorem ints_spec {α : Type} [Inhabited α] (xs : List α) (l : List Int)
+    (h : ∀ i ∈ l, -(xs.length : Int) ≤ i ∧ i < xs.length) :
+    getItemList xs (.ints l) =
+      .ok (.many (l.map fun (i : Int) => xs.getD (if i < 0 then i + xs.length else i).toNat default)) := by
+  simp only [getItemList, normIndices_ok xs.length l h]
+  show Except.ok _ = Except.ok _
+  rw [List.map_map]
+  rfl
+
+theorem ints_spec_error {α : Type} [Inhabited α] (xs : List α) (l : List Int)
+    (h : ∃ i ∈ l, i < -(xs.length : Int) ∨ i ≥ xs.length) :
+    getItemList xs (.ints l) = .error .indexError := by
+  simp only [getItemList, normIndices_error xs.length l h]
+  rfl
+
+/-! ### 7. Boolean mask -/
+
+theorem mask_spec {α : Type} [Inhabited α] (xs : List α) (m : List Bool)
+    (h : m.length = xs.length) :
+    getItemList xs (.mask m) = .ok (.many (((xs.zip m).filter (·.2)).map (·.1))) := by
+  simp only [getItemList, h, ne_eq, not_true_eq_false, if_false]
+  rw [flatnonzero_map_getD default m xs h]
+
+theorem mask_spec_error {α : Type} [Inhabited α] (xs : List α) (m : List Bool)
+    (h : m.length ≠ xs.length) : getItemList xs (.mask m) = .error .indexError := by
+  simp only [getItemList, if_pos h]
+
+/-! ### 8. Error classification -/
+
+theorem errors_spec {α : Type} [Inhabited α] (xs : List α) (c : Concat) (a b : Option Int) :
+    getItemList xs .sliceBadType = .error .typeError ∧
+    getItemList xs (.slice a b (some 0)) = .error .valueError ∧
+    getItemList xs .badArray = .error .indexError ∧
+    getItemList xs .unsized = .error .typeError ∧
+    getItemConcat c .sliceBadType = .error .typeError ∧
+    getItemConcat c (.slice a b (some 0)) = .error .valueError ∧
+    getItemConcat c .badArray = .error .indexError ∧
+    getItemConcat c .unsized = .error .typeError := by
+  refine ⟨rfl, ?_, rfl, rfl, rfl, ?_, rfl, rfl⟩
+  · simp only [getItemList, if_true]
+  · simp only [getItemConcat, if_true]
+
+/-! ### 9. The cumulative representation denotes the list it was built from -/
+
+theorem ofList_len (sigs : List (List Nat)) : (Concat.ofList sigs).len = sigs.length :=
+  ofList_len' sigs
+
+theorem ofList_get (sigs : List (List Nat)) (i : Nat) (h : i < sigs.length) :
+    (Concat.ofList sigs).get i = sigs[i] := by
+  rw [ofList_get', List.getD_eq_getElem?_getD, List.getElem?_eq_getElem h]
+  rfl
+
+theorem ofList_toList (sigs : List (List Nat)) : (Concat.ofList sigs).toList = sigs :=
+  ofList_toList' sigs
+
+/-- `bounds[i]` is the total length of the first `i` signatures (so empty signatures give
+repeated bounds). -/
+theorem ofList_bounds_getD (sigs : List (List Nat)) (i : Nat) (h : i ≤ sigs.length) :
+    (Concat.ofList sigs).bounds.getD i 0 = (sigs.take i).flatten.length := by
+  rw [ofList_bounds, prefixSums_getD 0 sigs i h, Nat.zero_add]
+
+theorem ofList_WF (sigs : List (List Nat)) : (Concat.ofList sigs).WF := ofList_wf sigs
+
+/-! ### 10. Every index form on the concatenated representation selects what the list selects -/
+
+/-- The contiguous fast path on any well-formed array (in particular on a view of a view). -/
+theorem sliceView_toList (c : Concat) (wf : c.WF) (start stop : Nat) (h1 : start ≤ stop)
+    (h2 : stop ≤ c.len) :
+    (c.sliceView start stop).toList = (List.range (stop - start)).map (fun t => c.get (start + t)) :=
+  GambitV.sliceView_toList c wf start stop h1 h2
+
+theorem sliceView_WF (c : Concat) (wf : c.WF) (start stop : Nat) (h1 : start ≤ stop)
+    (h2 : stop ≤ c.len) : (c.sliceView start stop).WF :=
+  sliceView_wf c wf start stop h1 h2
+
+theorem gather_toList (c : Concat) (js : List Nat) : (c.gather js).toList = js.map c.get :=
+  GambitV.gather_toList c js
+
+private theorem gather_refines (sigs : List (List Nat)) (r : Except IdxErr (List Nat)) :
+    (r >>= fun js => (pure (CSel.many ((Concat.ofList sigs).gather js)) : Except IdxErr CSel)).map
+        CSel.toSel =
+      (r >>= fun js => pure (Sel.many (js.map (fun j => sigs.getD j default)))) := by
+  cases r with
+  | error e => rfl
+  | ok js =>
+    show Except.ok _ = Except.ok _
+    simp only [CSel.toSel, GambitV.gather_toList]
+    congr 2
+    apply List.map_congr_left
+    intro j _
+    exact ofList_get' sigs j
+
+theorem concat_refines_list (sigs : List (List Nat)) (ix : Index) :
+    (getItemConcat (Concat.ofList sigs) ix).map CSel.toSel = getItemList sigs ix := by
+  cases ix with
+  | int i =>
+    simp only [getItemConcat, getItemList, ofList_len']
+    cases checkIndex sigs.length i with
+    | error e => rfl
+    | ok j =>
+      show Except.ok _ = Except.ok _
+      simp only [CSel.toSel, ofList_get']
+      rfl
+  | sliceBadType => rfl
+  | badArray => rfl
+  | unsized => rfl
+  | ints l =>
+    simp only [getItemConcat, getItemList, ofList_len']
+    exact gather_refines sigs _
+  | mask m =>
+    simp only [getItemConcat, getItemList, ofList_len']
+    by_cases h : m.length ≠ sigs.length
+    · rw [if_pos h, if_pos h]; rfl
+    · rw [if_neg h, if_neg h]
+      exact gather_refines sigs (.ok (flatnonzero m))
+  | slice a b c =>
+    by_cases hc : c = some 0
+    · subst hc
+      simp only [getItemConcat, getItemList, if_true]
+      rfl
+    · rcases hp : sliceIndices sigs.length a b c with ⟨s, e, st⟩
+      by_cases hfast : st ≠ 1 ∨ e ≤ s
+      · simp only [getItemConcat, getItemList, ofList_len', if_neg hc, hp, if_pos hfast]
+        exact gather_refines sigs _
+      · -- contiguous fast path: `st = 1`, `s < e`
+        have hst : st = 1 := by omega
+        have hse : s < e := by omega
+        subst hst
+        obtain ⟨_, hpos, _⟩ := sliceIndices_bounds sigs.length a b c hc s e 1 hp
+        have hb := hpos (by decide)
+        rw [(slice_spec sigs a b c hc s e 1 hp).1]
+        simp only [getItemConcat, ofList_len', if_neg hc, hp, if_neg hfast]
+        show Except.ok _ = Except.ok _
+        simp only [CSel.toSel]
+        rw [ofList_sliceView_toList sigs s.toNat e.toNat (by omega) (by omega), arange_one,
+          List.map_map]
+        have : e.toNat - s.toNat = (e - s).toNat := by omega
+        rw [this]
+        congr 2
+        apply List.map_congr_left
+        intro t _
+        have : (s + (t : Int)).toNat = s.toNat + t := by omega
+        simp only [Function.comp, this]
+        rfl
+
+/-! ### 11. Mutation (`SignatureList` delegates to a Python `list`) -/
+
+theorem applyMut_set (xs : List (List Nat)) (i : Int) (x : List Nat) :
+    (-(xs.length : Int) ≤ i → i < xs.length →
+      applyMut xs (.set i x) = .ok (xs.set (if i < 0 then i + xs.length else i).toNat x)) ∧
+    (i < -(xs.length : Int) ∨ i ≥ xs.length → applyMut xs (.set i x) = .error .indexError) := by
+  constructor
+  · intro h1 h2
+    simp only [applyMut, checkIndex_in_range xs.length i h1 h2]; rfl
+  · intro h
+    simp only [applyMut, checkIndex_out_of_range xs.length i h]; rfl
+
+theorem applyMut_del (xs : List (List Nat)) (i : Int) :
+    (-(xs.length : Int) ≤ i → i < xs.length →
+      applyMut xs (.del i) = .ok (xs.eraseIdx (if i < 0 then i + xs.length else i).toNat)) ∧
+    (i < -(xs.length : Int) ∨ i ≥ xs.length → applyMut xs (.del i) = .error .indexError) := by
+  constructor
+  · intro h1 h2
+    simp only [applyMut, checkIndex_in_range xs.length i h1 h2]; rfl
+  · intro h
+    simp only [applyMut, checkIndex_out_of_range xs.length i h]; rfl
+
+/-- `del` fails exactly when the index is out of range. -/
+theorem applyMut_del_error_iff (xs : List (List Nat)) (i : Int) :
+    (∃ e, applyMut xs (.del i) = .error e) ↔ (i < -(xs.length : Int) ∨ i ≥ xs.length) := by
+  constructor
+  · rintro ⟨e, he⟩
+    by_cases h : i < -(xs.length : Int) ∨ i ≥ xs.length
+    · exact h
+    · rw [(applyMut_del xs i).1 (by omega) (by omega)] at he; cases he
+  · intro h; exact ⟨_, (applyMut_del xs i).2 h⟩
+
+theorem applyMut_insert (xs : List (List Nat)) (i : Int) (x : List Nat) :
+    applyMut xs (.insert i x) = .ok (xs.insertIdx (pyInsertPos xs.length i) x) := by
+  simp only [applyMut, insertIdx_eq_take_drop xs _ x (pyInsertPos_le xs.length i)]
+
+theorem applyMut_insert_length (xs : List (List Nat)) (i : Int) (x : List Nat) :
+    ∃ ys, applyMut xs (.insert i x) = .ok ys ∧ ys.length = xs.length + 1 ∧
+      ys[pyInsertPos xs.length i]? = some x ∧
+      ys.eraseIdx (pyInsertPos xs.length i) = xs := by
+  refine ⟨_, applyMut_insert xs i x, ?_, ?_, ?_⟩
+  · rw [List.length_insertIdx, if_pos (pyInsertPos_le xs.length i)]
+  · rw [List.getElem?_insertIdx_self, if_pos (pyInsertPos_le xs.length i)]
+  · exact List.eraseIdx_insertIdx_self x
+
+/-! ### 12. `__eq__` -/
+
+theorem sigEq_iff (k1 : Nat) (p1 : List UInt8) (a : List (List Nat)) (k2 : Nat) (p2 : List UInt8)
+    (b : List (List Nat)) : sigEq k1 p1 a k2 p2 b = true ↔ k1 = k2 ∧ p1 = p2 ∧ a = b := by
+  simp [sigEq, and_assoc]
+
+/-! ### 13. Non-vacuity -/
+
+/-- Results are compared by evaluation (`Except` has no `DecidableEq` instance in core). -/
+local instance {ε α : Type} [DecidableEq ε] [DecidableEq α] : DecidableEq (Except ε α)
+  | .ok a, .ok b => if h : a = b then isTrue (by rw [h]) else isFalse (fun h' => h (by cases h'; rfl))
+  | .error a, .error b =>
+    if h : a = b then isTrue (by rw [h]) else isFalse (fun h' => h (by cases h'; rfl))
+  | .ok _, .error _ => isFalse (fun h => by cases h)
+  | .error _, .ok _ => isFalse (fun h => by cases h)
+
+-- `xs[3:-5:-2]` on four elements: stop clips to `-1`, positions `3, 1`.
+example : sliceIndices 4 (some 3) (some (-5)) (some (-2)) = (3, -1, -2) := by decide
+example : getItemList [10, 11, 12, 13] (.slice (some 3) (some (-5)) (some (-2))) =
+    .ok (.many [13, 11]) := by decide
+example : getItemList [10, 11, 12, 13] (.mask [true, false, false, true]) =
+    .ok (.many [10, 13]) := by decide
+example : getItemList [10, 11, 12, 13] (.ints [-1, 0, -4, 2]) = .ok (.many [13, 10, 10, 12]) := by
+  decide
+example : getItemList [10, 11, 12, 13] (.ints [-1, 4]) = .error .indexError := by decide
+example : getItemList [10, 11, 12, 13] (.int (-5)) = .error .indexError := by decide
+
+-- The same through the concatenated representation (with an empty signature in the middle).
+example : Concat.ofList [[1, 2], [], [3], [4, 5, 6]] =
+    { values := [1, 2, 3, 4, 5, 6], bounds := [0, 2, 2, 3, 6] } := by decide
+example : (getItemConcat (Concat.ofList [[1, 2], [], [3], [4, 5, 6]])
+      (.slice (some 3) (some (-5)) (some (-2)))).map CSel.toSel =
+    .ok (.many [[4, 5, 6], []]) := by decide
+example : (getItemConcat (Concat.ofList [[1, 2], [], [3], [4, 5, 6]])
+      (.mask [true, false, false, true])).map CSel.toSel = .ok (.many [[1, 2], [4, 5, 6]]) := by
+  decide
+example : (getItemConcat (Concat.ofList [[1, 2], [], [3], [4, 5, 6]])
+      (.ints [-1, 0, -4, 2])).map CSel.toSel =
+    .ok (.many [[4, 5, 6], [1, 2], [1, 2], [3]]) := by decide
+-- Fast path: `c[1:3]` is a view with re-based bounds.
+example : getItemConcat (Concat.ofList [[1, 2], [], [3], [4, 5, 6]]) (.slice (some 1) (some 3) none) =
+    .ok (.many { values := [3], bounds := [0, 0, 1] }) := by decide
+example : (getItemConcat (Concat.ofList [[1, 2], [], [3], [4, 5, 6]])
+      (.slice (some 1) (some 3) none)).map CSel.toSel = .ok (.many [[], [3]]) := by decide
+example : (getItemConcat (Concat.ofList [[1, 2], [], [3], [4, 5, 6]]) (.int (-1))).map CSel.toSel =
+    .ok (.one [4, 5, 6]) := by decide
+example : applyMut [[1], [2], [3]] (.insert (-10) [9]) = .ok [[9], [1], [2], [3]] := by decide
+example : applyMut [[1], [2], [3]] (.insert 10 [9]) = .ok [[1], [2], [3], [9]] := by decide
+example : applyMut [[1], [2], [3]] (.insert (-1) [9]) = .ok [[1], [2], [9], [3]] := by decide
+example : applyMut [[1], [2], [3]] (.del (-1)) = .ok [[1], [2]] := by decide
+example : applyMut [[1], [2], [3]] (.del 3) = .error .indexError := by decide
+
 end GambitV.C20
